@@ -5,8 +5,8 @@ from checks import common
 
 PID = "C18"
 # concrete dangling references: (label, kind of the spec's table, reference); /Size is 70, 60 is a free entry, 61 lies in a gap,
-# 62 is defined in the original body and freed by an incremental update
-PLANT = {"free": ("free", "60 0 R"), "freed-by-update": ("free", "62 0 R"), "gap": ("gap", "61 0 R"), "beyond": ("beyond", "99 0 R"),
+# 62 is defined in the original body and freed by an incremental update (63 the same, with a free entry of generation 0)
+PLANT = {"free": ("free", "60 0 R"), "freed-by-update": ("free", "62 0 R"), "freed-same-generation": ("free", "63 0 R"), "gap": ("gap", "61 0 R"), "beyond": ("beyond", "99 0 R"),
          "at-size": ("beyond", "70 0 R"), "size+1": ("beyond", "71 0 R"), "huge": ("beyond", "4000000000 0 R")}
 
 
